@@ -4,6 +4,7 @@ package main
 import (
 	"bytes"
 	"fmt"
+	"strings"
 
 	gots "github.com/Comcast/gots/v2"
 	"github.com/Comcast/gots/v2/packet"
@@ -113,6 +114,15 @@ func checkPAT(c *mon.Ctx, carrier string, pat psi.PAT, err error, p *ref.PAT, in
 	} else if serr == nil {
 		c.Fail(carrier+":SPTSpmtPID-should-fail", fmt.Sprintf("SPTSpmtPID() succeeded (%#x) on a table with %d entries (%d programs)", pid, n, len(want)), w(""))
 		ok = false
+	}
+	if ok && !strings.HasSuffix(carrier, "/again") {
+		// the map handed out belongs to the caller: editing it must not change what the PAT reports afterwards
+		for k := range m {
+			delete(m, k)
+		}
+		m[7777] = 0x1abc
+		m[1] = 0x0001
+		ok = checkPAT(c, carrier+"/again", pat, nil, p, input)
 	}
 	return ok
 }
@@ -258,6 +268,23 @@ func run(c *mon.Ctx) {
 		}
 		if checkPAT(c, "stream", pat, err, &p, tail(in, 600)) && len(p.Entries) > 0 {
 			c.Class(fmt.Sprintf("stream/n=%s/net=%v/before=%d", nClass(len(p.Entries)), hasNet(&p), min(before, 5)))
+		}
+		// a PAT read earlier keeps reporting its own table after other streams were read
+		if pat != nil && err == nil {
+			for k := 0; k < 2; k++ {
+				q := genPAT(r, 42)
+				qk := ref.PaddedPacket(0, r.Intn(16), true, append([]byte{0}, q.Section()...))
+				var st2 bytes.Buffer
+				if k == 1 {
+					o := ref.PaddedPacket(1+r.Intn(8190), 0, false, r.Bytes(184))
+					st2.Write(o[:]) // this one ends without a PAT
+				} else {
+					st2.Write(qk[:])
+				}
+				psi.ReadPAT(bytes.NewReader(st2.Bytes()))
+			}
+			c.Count("stream.rechecked_after_later_reads")
+			checkPAT(c, "stream-after-later-reads", pat, nil, &p, tail(in, 600))
 		}
 	})
 	// nil PAT is an error
